@@ -924,12 +924,16 @@ class NumbaBackend(NumpyBackend):
         num_axes = field.grid.num_axes
         data_shape = field.data_shape
 
-        # convert `fill` to dtype of data
+        # interpolated values are real (or complex) numbers, also for integer data
+        integer_data = not np.issubdtype(field.data.dtype, np.inexact)
+        dtype_fill = np.dtype(np.double) if integer_data else field.data.dtype
+
+        # convert `fill` to dtype of the interpolated values
         if fill is not None:
             if field.rank == 0:
-                fill = field.data.dtype.type(fill)  # type: ignore
+                fill = dtype_fill.type(fill)  # type: ignore
             else:
-                fill = np.broadcast_to(fill, field.data_shape).astype(field.data.dtype)  # type: ignore
+                fill = np.broadcast_to(fill, field.data_shape).astype(dtype_fill)  # type: ignore
 
         # create the method to interpolate data at a single point
         interpolate_single = grids.make_single_interpolator(
@@ -976,7 +980,10 @@ class NumbaBackend(NumpyBackend):
                 data = get_data_array()
 
             # interpolate at every valid point
-            out = np.empty(data_shape + point_shape, dtype=data.dtype)
+            if integer_data:
+                out = np.empty(data_shape + point_shape, dtype=np.double)
+            else:
+                out = np.empty(data_shape + point_shape, dtype=data.dtype)
             for idx in np.ndindex(*point_shape):
                 out[(..., *idx)] = interpolate_single(data, point[idx])
 
